@@ -57,13 +57,19 @@ def run(tier):
                         dict(base, fmt='conll', text=frag[:600]))
             except lexers.LexError:
                 pass
+    from ..tlc import run_tlc, require_clean
+    from ..common import NCPU, Machinery
+    mr = require_clean(run_tlc('MCFormats.tla', 'MCFormats.cfg' if tier == 'quick' else 'MCFormats_4.cfg', workers=NCPU, timeout=1800), 'MCFormats')
+    if mr.violated:
+        raise Machinery('Formats.tla laws violated (specification inconsistent): %s' % mr.violated)
     rejects, stats = validate('traces/RenderTrace.tla', events, 'c08', per_shard=400)
     viols = []
     for (i, clause) in rejects:
         if clause.startswith(PROP + '.'):
             m = metas[i]
             viols.append(Violation(PROP, clause, str(m.get('words'))[:300], m))
-    cov = {'states': stats.states, 'transitions': stats.transitions, 'traces_validated_against_impl': len(events),
+    cov = {'tlc_runs': [{'cfg': 'MCFormats', 'distinct': mr.distinct, 'generated': mr.generated, 'wall_s': round(mr.wall, 1)}],
+           'states': stats.states + mr.distinct, 'transitions': stats.transitions + mr.generated, 'traces_validated_against_impl': len(events),
            'events': {'batches': n, 'trees_read_back': ntrees, 'events': len(events)},
            'samples': [{k: metas[i][k] for k in metas[i] if k in ('lang', 'fmt', 'words', 'text')} for i in (1, len(events) // 2, len(events))],
            'checker_cmd': stats.cmds[0] if stats.cmds else '',
